@@ -100,6 +100,10 @@ def pattern_uses(fn):
         recv = n.func.value
         if isinstance(recv, ast.Name) and recv.id in re_aliases:
             continue                                      # re.match(pattern, text): not applied to the source
+        a0 = n.args[0] if n.args else None
+        if (isinstance(a0, ast.Subscript) and isinstance(a0.slice, ast.Constant) and isinstance(a0.slice.value, (str, int))) \
+                or (isinstance(a0, ast.Call) and isinstance(a0.func, ast.Attribute) and a0.func.attr == "group"):
+            continue                                      # applied to a group of an earlier match, not to the source
         names = {x.id for x in ast.walk(recv) if isinstance(x, ast.Name)}
         loop = next((a for a in ancestors(n) if isinstance(a, (ast.For, ast.comprehension)) and names & set(_target_names(a.target))), None)
         if loop is None:
